@@ -7,6 +7,8 @@ import dsched
 import fixture
 import shellprops
 import shims
+import sx
+from sx import sym, A
 
 PID = 'C20'
 TRUSTED = shellprops.TRUSTED
@@ -55,6 +57,16 @@ def run_timed(kind, K, handler, fail_k, t_init, horizon):
             return S.halted or ((writer.state == 'dead' or (rest(writer, 'get') and not q.items)) and
                                 (reader.state == 'dead' or (rest(reader, 'recv') and not env.sock.chunks)))
 
+        # environment actions as labels of Model/SenderFault.v: (label, ok) — ok False on the label whose sendall is the failing one
+        labels = []
+        seen = [0]
+
+        def note_puts():
+            # what the library enqueued since the last look (the init reply; nothing else enqueues in these sessions)
+            for item in list(q.log)[seen[0]:]:
+                labels.append([[sym('put'), A(1), [sym('some'), item.encode('utf-8')] if isinstance(item, str) else sym('none')], None])
+            seen[0] = len(q.log)
+
         def advance(t):
             n = 0
             while not S.halted and n < 50:
@@ -62,19 +74,26 @@ def run_timed(kind, K, handler, fail_k, t_init, horizon):
                 if writer.state != 'dead' and w is not None and w['timeout'] is not None and not w['fired'] \
                         and Fraction(w['start']) + Fraction(w['timeout']) < t:
                     n += 1
-                    clock.now = Fraction(w['start']) + Fraction(w['timeout'])
+                    dl = Fraction(w['start']) + Fraction(w['timeout'])
+                    labels.append([[sym('delay'), Q(dl - Fraction(clock.now))], None])
+                    labels.append([sym('fire'), None])
+                    clock.now = dl
                     w['fired'] = True
                     S.yield_('env', None, cond=parked)
                 else:
                     break
-            clock.now = Fraction(t)
+            if not S.halted:
+                labels.append([[sym('delay'), Q(Fraction(t) - Fraction(clock.now))], None])
+                clock.now = Fraction(t)
 
         def body():
             S.yield_('env', None, cond=parked)
+            note_puts()
             if t_init is not None:
                 advance(Fraction(t_init))
                 env.sock.chunks.append(init)
                 S.yield_('env', None, cond=parked)
+                note_puts()
             advance(Fraction(horizon))
         S.spawn('env', 'env', body)
 
@@ -85,7 +104,8 @@ def run_timed(kind, K, handler, fail_k, t_init, horizon):
                         return t
             return en[0]
         status = S.run(chooser, max_steps=50000)
-        out = {'status': status, 'attempts': attempts, 'sent': list(env.sock.sent), 'exits': list(env.os.exits),
+        note_puts()              # (a run that ended in the exit primitive before the environment looked again)
+        out = {'status': status, 'labels': labels, 'attempts': attempts, 'sent': list(env.sock.sent), 'exits': list(env.os.exits),
                'io': list(h.io) if h else None, 'ex': list(h.ex) if h else None,
                'crashes': [e for e in S.events if e[0] == 'thread-crash' and 'env' not in e[1:3]],
                'harness_crash': [e for e in S.events if e[0] == 'thread-crash' and 'env' in e[1:3]]}
@@ -93,6 +113,40 @@ def run_timed(kind, K, handler, fail_k, t_init, horizon):
     if out['harness_crash']:
         raise RuntimeError('C20 harness environment thread crashed: %r' % (out['harness_crash'][0],))
     return out
+
+
+def Q(fr):
+    fr = Fraction(fr)
+    return [sym('q'), A(fr.numerator), A(fr.denominator)]
+
+
+def model_call(K, handler, fail_k, o):
+    """the run as a call of the extracted model: every label that makes the writer call sendall is marked ok, except the
+    fail_k-th one"""
+    n = 0
+    ls = []
+    for lab, _ in o['labels']:
+        writes = lab == sym('fire') or (isinstance(lab, list) and lab and lab[0] == sym('put'))
+        ok = True
+        if writes:
+            n += 1
+            ok = n != fail_k
+        ls.append([lab, A(ok)])
+        if not ok and handler == 'absent' or (not ok and handler is True):
+            break                # the process is gone: the environment's later actions did not happen
+    h = sym('absent') if handler == 'absent' else [sym('returns'), sym('none') if handler is None else [sym('some'), A(bool(handler))]]
+    return [sym('sender_fault_run'), Q(Fraction(K)), h, ls]
+
+
+def compare(handler, fail_k, o, m):
+    """-> None | (model, impl) texts when the real run differs from Model/SenderFault.v"""
+    if sx.is_err(m) or m[0] != b'ok':
+        return sx.dumps(m)[:300], 'ran'
+    mw = [(Fraction(int(w[0][1]), int(w[0][2])), bytes(w[3]) + b'\r\n') for w in m[1]]
+    impl_w = [(t, d) for (t, d), s_ in zip(o['attempts'], range(len(o['sent'])))]
+    impl = {'writes': [(str(t), d) for t, d in impl_w], 'attempts': len(o['attempts']), 'reports': len(o['io'] or []), 'exits': len(o['exits'])}
+    model = {'writes': [(str(t), d) for t, d in mw], 'attempts': int(m[3]), 'reports': int(m[4]), 'exits': int(m[5])}
+    return None if model == impl else (repr(model)[:500], repr(impl)[:500])
 
 
 def judge(handler, fail_k, o):
@@ -130,14 +184,18 @@ def cases(tier, rng):
     if tier != 'quick':
         for _ in range(400):
             K = rng.choice([0.5, 1, 1.5, 2.25])
+            t_init = rng.choice([None, Fraction(rng.randint(0, 80), 8)])
             out.append((rng.choice(['meta', 'data']), K, rng.choice(HANDLERS), rng.randint(1, 9),
-                        rng.choice([None, Fraction(rng.randint(0, 80), 8)]), Fraction(rng.randint(8, 200), 8)))
+                        t_init, (t_init or 0) + Fraction(rng.randint(8, 200), 8)))
     return out
 
 
 def keepalive_fault(ctx, res):
+    runs = []
     for kind, K, handler, fail_k, t_init, horizon in cases(ctx.tier, ctx.rng):
-        o = run_timed(kind, K, handler, fail_k, t_init, horizon)
+        runs.append(((kind, K, handler, fail_k, t_init, horizon), run_timed(kind, K, handler, fail_k, t_init, horizon)))
+    outs = ctx.model([model_call(c[1], c[2], c[3], o) for c, o in runs])
+    for ((kind, K, handler, fail_k, t_init, horizon), o), m in zip(runs, outs):
         res.evaluations += 1
         n = len(o['attempts'])
         ka = n >= fail_k and o['attempts'][fail_k - 1][1] == b'KEEPALIVE\r\n'
@@ -149,6 +207,10 @@ def keepalive_fault(ctx, res):
         bad = judge(handler, fail_k, o)
         if bad:
             res.oracle_violations.append({'case': case, 'detail': bad, 'key': {'kind': 'timed_write_fault', 'keepalive': ka}})
+        d = compare(handler, fail_k, o, m)
+        if d:
+            res.disagreements.append({'case': case, 'model': d[0], 'impl': d[1],
+                                      'relation': 'SenderFault.frun (writes with virtual times, sendall attempts, handler notifications, exits) = the real writer loop with the k-th sendall failing'})
 
 
 def run(ctx, res):
